@@ -273,7 +273,7 @@ func cliExit(r *Run) {
 
 	// ---- state ----
 	states := []string{"intact", "repairable", "unrepairable", "no-parity", "damaged-index", "missing-index", "recovery-subset-lost", "damaged-recovery-file"}
-	state := states[t.Pick([]int{2, 5, 3, 2, 1, 1, 3, 1}, "state")]
+	state := states[t.Pick([]int{2, 5, 3, 3, 1, 1, 3, 1}, "state")]
 	if longGap && t.Bool(2, 3, "long-gap-state") {
 		state = "recovery-subset-lost"
 	}
@@ -293,7 +293,7 @@ func cliExit(r *Run) {
 	// PAR2 file cost nothing (every slice is still there) but the file
 	// is wrong all the same
 	garble := func(i int) int {
-		switch t.Pick([]int{3, 3, 1, 1}, "garble-kind") {
+		switch t.Pick([]int{3, 3, 2, 2}, "garble-kind") {
 		case 0:
 			w.Disk.Remove(w.Path(i))
 			r.Logf("state: %q deleted", w.Files[i].Name)
